@@ -238,6 +238,6 @@ func concurrentParts(tier string) []drv.Part {
 	return []drv.Part{
 		{Name: "concurrent-2", Desc: "two concurrent senders + handler reply", Body: concurrentBody(2), MaxDev: pre, ShardLevels: 3, Budget: b, Env: env},
 		{Name: "concurrent-3", Desc: "three concurrent senders + handler reply", Body: concurrentBody(3), MaxDev: pre - 1, ShardLevels: 3, Budget: b, Env: env},
-		drv.RacePart(pre+2, pre, b, concurrentBody(2), concurrentBody(3)),
+		drv.RacePart(6*pre, pre, b, concurrentBody(2), concurrentBody(3)),
 	}
 }
